@@ -519,6 +519,7 @@ func c11RangePrograms(r *rand.Rand, n int) []*Prog {
 	rng := func(x *E, k, e string, body ...*S) *S { return &S{K: "range", X: x, KName: k, VName: e, Body: body} }
 	iff := func(c *E, then ...*S) *S { return &S{K: "if", Cond: c, Then: then} }
 	add := func(name string, e *E) *S { return &S{K: "opassign", Lhs: []*E{v(name, TInt)}, Op: "+", E: e} }
+	idx2 := func(x *E, i int64) *E { return &E{K: "index", Ty: ts, X: x, I: lit(TInt, i)} }
 	slit := func(xs ...int64) *E {
 		e := &E{K: "slicelit", Ty: ts}
 		for _, x := range xs {
@@ -558,6 +559,11 @@ func c11RangePrograms(r *rand.Rand, n int) []*Prog {
 				pr(sS("niled"), lenOf(v("w", ts)))},
 			{ // an earlier or the current element written: the value of this round was already taken
 				rng(s, "i", "e", asg(idx(s, i), bin("+", TInt, e, lit(TInt, 100))), iff(bin(">", TBool, i, lit(TInt, 0)), asg(idx(s, bin("-", TInt, i, lit(TInt, 1))), e)), add("acc", e))},
+			{ // the iteration variable has the name of the slice ranged over (the operand is evaluated before it is declared)
+				dcl("grid", &E{K: "slicelit", Ty: SliceOf(ts), Args: []*E{slit(1, 2), slit(3, 4), slit(5, 6)}}),
+				rng(v("grid", SliceOf(ts)), "_", "grid", &S{K: "opassign", Lhs: []*E{idx(v("grid", ts), lit(TInt, 0))}, Op: "+", E: lit(TInt, 10)}, add("acc", idx(v("grid", ts), lit(TInt, 1)))),
+				pr(sS("self-named"), idx(idx2(v("grid", SliceOf(ts)), 0), lit(TInt, 0)), idx(idx2(v("grid", SliceOf(ts)), 2), lit(TInt, 0)), lenOf(v("grid", SliceOf(ts)))),
+				rng(sl(s, lit(TInt, 1), nil), "s", "", add("acc", bin("*", TInt, v("s", TInt), lit(TInt, 100))))},
 			{ // index-only loop reading the live slice
 				rng(s, "i", "", add("acc", idx(s, i)), iff(bin("<", TBool, bin("+", TInt, i, lit(TInt, 1)), lenOf(s)), asg(idx(s, bin("+", TInt, i, lit(TInt, 1))), lit(TInt, int64(r.Intn(9))))))},
 		}
